@@ -574,6 +574,8 @@ class Gen(object):
                 names = rnd.sample(b.named_bits, rnd.randint(0, len(b.named_bits)))
                 names = [x for x in names if x[1] < max(n, hi)]
                 top = max([x[1] for x in names] + [-1]) + 1
+                if top < lo:
+                    return    # X.680 22.7 padding to meet SIZE: not probed (DESIGN C11 note)
                 nb = max(top, lo)
                 data = bytearray((nb + 7) // 8)
                 for _, bit in names:
